@@ -43,7 +43,7 @@ def replay_plans(quick):
     if quick:
         return [dict(base, MaxOps=4, PMsgs=2, Thrown={"Err", "Abort"}, PosKinds={"locate", "attr", "read"},
                      Positions="<- PosOne", Offsets="<- OffOne")]
-    return [dict(base, MaxOps=5, PMsgs=3, Thrown={"Err", "Stop", "Abort"}, PosKinds={"locate", "attr", "read"},
+    return [dict(base, MaxOps=5, PMsgs=2, Thrown={"Err", "Stop", "Abort"}, PosKinds={"locate", "attr", "read"},
                  Positions="<- PosOne", Offsets="<- OffSmall", MisbehaveClose=True),
             dict(base, MaxOps=4, PMsgs=2, Thrown={"Abort"}, PosKinds={"locate"}, Positions="<- PosLarge", Offsets="<- OffLarge")]
 
